@@ -447,7 +447,10 @@ type Conn struct {
 	// ReadHook, when set, runs at the start of every Read with the number of
 	// bytes currently readable (C10 transport seam).
 	ReadHook func(avail int)
-	wroteN   int64
+	// DeadlineHook, when set, runs at the start of every Set*Deadline call,
+	// before the call is recorded and takes effect (C10: a slow SetDeadline).
+	DeadlineHook func(t time.Time)
+	wroteN       int64
 }
 
 type DeadlineCall struct {
@@ -679,6 +682,9 @@ func (c *Conn) LocalAddr() net.Addr  { return addr(c.name) }
 func (c *Conn) RemoteAddr() net.Addr { return addr(c.name + "-peer") }
 
 func (c *Conn) setDL(kind string, t time.Time) {
+	if h := c.DeadlineHook; h != nil {
+		h(t)
+	}
 	c.mu.Lock()
 	seq := c.w.Ev(c.name, kind, 0, "")
 	c.Deadlines = append(c.Deadlines, DeadlineCall{Seq: seq, At: c.w.Now(), Kind: kind, T: t})
